@@ -8,3 +8,7 @@ WITNESSES = ['C13W1Fail', 'C13W1Twin']
 def rules(ctx):
     S.c13_rules(ctx)
     S.walker_rules(ctx)
+    S.c01_r5_cow(ctx)
+    S.c10_rules(ctx)
+    S.c02_r4_who_frees(ctx)
+    S.c06_r1_freed_merged(ctx)
